@@ -90,7 +90,7 @@ def run(ctx):
         "a served answer is 'unchanged' iff its packed form (ID and TTLs normalised) equals the packed scripted answer without OPT",
         "the concurrent part consists of fresh hits only (they commute); race reports of the Go race detector are violations",
     ]
-    vlib.tlc_mc(ctx, SPEC, "c10_design.cfg", cfg_text=cl.cfg(MaxOps="7", **C10),
+    vlib.tlc_mc(ctx, SPEC, "c10_design.cfg", cfg_text=cl.cfg(MaxOps="9" if T else "7", **C10),
                 label="C10 design: 2 keys, <= 3 handles, store/hit/mutate interleavings")
     for alias, inv in (("store", "Isolation"), ("hit", "Isolation"), ("id", "HitId")):
         res = vlib.run_tlc(ctx, SPEC, "c10_nv_%s.cfg" % alias, expect_violation=True, workers=2,
